@@ -249,8 +249,9 @@ def build_driver():
 # --------------------------------------------------------------------------- engines
 def run_shard(engine, harness_bin, seed, cases, extra, tag):
     os.makedirs(WORK, exist_ok=True)
-    tr = os.path.join(WORK, f"{tag}.trace")
-    ex = os.path.join(WORK, f"{tag}.exp")
+    # the pid keeps concurrent ./check runs in one tree from writing the same trace file
+    tr = os.path.join(WORK, f"{tag}.{os.getpid()}.trace")
+    ex = os.path.join(WORK, f"{tag}.{os.getpid()}.exp")
     with open(tr, "w") as f:
         p = subprocess.run([harness_bin, engine, "--seed", str(seed), "--cases", str(cases)] + extra, stdout=f,
                            stderr=subprocess.PIPE, text=True, env=ENV, timeout=3400)
@@ -308,8 +309,8 @@ def run_corpus(prop, engine, harness_bin, tag):
         if m and m.group(1) != engine:
             continue
         os.makedirs(WORK, exist_ok=True)
-        tr = os.path.join(WORK, f"{tag}.corpus.{f}.trace")
-        ex = os.path.join(WORK, f"{tag}.corpus.{f}.exp")
+        tr = os.path.join(WORK, f"{tag}.corpus.{f}.{os.getpid()}.trace")
+        ex = os.path.join(WORK, f"{tag}.corpus.{f}.{os.getpid()}.exp")
         with open(tr, "w") as fo:
             p = subprocess.run([harness_bin, engine, "--replay", path], stdout=fo, stderr=subprocess.PIPE, text=True, env=ENV, timeout=1800)
         if p.returncode != 0:
